@@ -309,8 +309,8 @@ static void build_pre_state(void)
 static void check_inv(void)
 {
     struct mbuf *sb = &TS->conn.send_mbuf, *rb = &TS->conn.receive_mbuf;
-    CHECK(sb->wire_len <= sb->wire_capacity && sb->wire_capacity <= MBUF_WIRE_MAX, "C07: INV send buffer within its capacity, at most one maximum frame");
-    CHECK(rb->wire_len <= rb->wire_capacity && rb->wire_capacity <= MBUF_WIRE_MAX, "C07: INV receive buffer within its capacity, at most one maximum frame");
+    CHECK(sb->wire_len <= sb->wire_capacity && sb->wire_len <= MBUF_WIRE_MAX, "C07: INV send buffer within its capacity, at most one maximum frame");
+    CHECK(rb->wire_len <= rb->wire_capacity && rb->wire_len <= MBUF_WIRE_MAX, "C07: INV receive buffer within its capacity, at most one maximum frame");
     if (sb->wire_len == 0)
 	CHECK(TS->conn.mbuf_sent == 0, "C01: INV no sent-offset without a pending frame");
     else {
